@@ -6,6 +6,21 @@
 using namespace Tins;
 int main(int, char** argv) {
     Replay r(argv[1]);
+    if (r.str("unit") == "dot11.country_inverse") {
+        // country(params) with the witness number of triplets, read back directly and through the wire
+        size_t k = (size_t)r.num("W_n", 2); if (k < 1 || k > 4) k = 2;
+        Dot11Beacon::country_params params;
+        params.country = "US ";
+        for (size_t i = 0; i < k; ++i) { params.first_channel.push_back((uint8_t)(1 + 4 * i)); params.number_channels.push_back((uint8_t)(4 + i)); params.max_transmit_power.push_back((uint8_t)(20 + i)); }
+        Dot11Beacon b; b.country(params);
+        try {
+            Dot11Beacon::country_params out = b.country();
+            std::vector<uint8_t> y = b.serialize(); Dot11Beacon q(y.data(), (uint32_t)y.size());
+            Dot11Beacon::country_params out2 = q.country();
+            if (out.first_channel != params.first_channel || out2.first_channel != params.first_channel || out2.max_transmit_power != params.max_transmit_power || out2.country != params.country) { printf("DEFECT: country() does not return the %zu triplets that were set\n", k); return 1; }
+        } catch (const exception_base& e) { printf("DEFECT: country() with %zu triplets set through the API throws %s (the encoder pads the element to an even length, the decoder rejects the pad octet)\n", k, e.what()); return 1; }
+        printf("country with %zu triplets: ok\n", k); return 0;
+    }
     size_t n = (size_t)r.num("W_size", 20) & 0xff; bool mv = r.num("W_move", 1) != 0;
     std::vector<uint8_t> data(n, 0x5a);
     Dot11Beacon b;
